@@ -178,6 +178,13 @@ type Run struct {
 }
 
 func NewRun(c *Ctx) *Run {
+	// stale replay directories of the same (tier, seed) would be mistaken for new ones
+	if c.Replay == "" {
+		old, _ := filepath.Glob(filepath.Join(c.VerifDir, "replays", c.ID, fmt.Sprintf("%s-s%d-*", c.Tier, c.Seed)))
+		for _, d := range old {
+			_ = os.RemoveAll(d)
+		}
+	}
 	return &Run{
 		C:          c,
 		nontrivial: map[string]struct{}{},
